@@ -398,6 +398,17 @@ func (t *TOTP) PostValidate(w http.ResponseWriter, r *http.Request) error {
 		}
 	}
 
+	// The account may have been locked (eg. by failed codes) or had its
+	// confirmation restarted since the password step: give the modules that
+	// guard logins their say before the session is issued.
+	r = r.WithContext(context.WithValue(r.Context(), authboss.CTXKeyUser, user))
+	handled, err := t.Authboss.Events.FireBefore(authboss.EventAuth, w, r)
+	if err != nil {
+		return err
+	} else if handled {
+		return nil
+	}
+
 	authboss.PutSession(w, authboss.SessionKey, user.GetPID())
 	authboss.PutSession(w, authboss.Session2FA, "totp")
 
@@ -407,8 +418,7 @@ func (t *TOTP) PostValidate(w http.ResponseWriter, r *http.Request) error {
 
 	logger.Infof("user %s totp 2fa success", user.GetPID())
 
-	r = r.WithContext(context.WithValue(r.Context(), authboss.CTXKeyUser, user))
-	handled, err := t.Authboss.Events.FireAfter(authboss.EventAuth, w, r)
+	handled, err = t.Authboss.Events.FireAfter(authboss.EventAuth, w, r)
 	if err != nil {
 		return err
 	} else if handled {
